@@ -34,7 +34,7 @@ def set_proc_variant(v):
     _proc_variant = v
 
 
-def run_cli_proc(argv, variant='plain', timeout=120):
+def run_cli_proc(argv, variant='plain', timeout=120, tool='peltool'):
     """`peltool.py argv` as a real process.  Same result shape as run_cli (uncaught = the traceback, if any).
     plain: python <repo>/modules/pel/peltool/peltool.py, UTF-8 locale, stdout a pipe
     posix: LANG=C LC_ALL=C without Python's locale coercion / UTF-8 mode (stdout is ASCII)
@@ -46,7 +46,8 @@ def run_cli_proc(argv, variant='plain', timeout=120):
     import subprocess
     import tempfile
     repo = os.environ.get('VERIF_REPO', '/repo')
-    script = os.path.join(repo, 'modules', 'pel', 'peltool', 'peltool.py')
+    script = os.path.join(repo, 'modules', *{'peltool': ('pel', 'peltool', 'peltool.py'), 'dump': ('io_drawer', 'dump.py')}[tool])
+    module = {'peltool': 'pel.peltool.peltool', 'dump': 'io_drawer.dump'}[tool]
     env = {k: v for k, v in os.environ.items() if k not in ('PYTHONUTF8', 'PYTHONIOENCODING', 'PYTHONOPTIMIZE',
                                                             'LC_ALL', 'LANG', 'LC_CTYPE', 'PYTHONCOERCECLOCALE')}
     env['PYTHONPATH'] = os.path.join(repo, 'modules')
@@ -60,7 +61,7 @@ def run_cli_proc(argv, variant='plain', timeout=120):
     elif variant == 'opt':
         cmd = [sys.executable, '-O', script]
     elif variant == 'module':
-        cmd = [sys.executable, '-m', 'pel.peltool.peltool']
+        cmd = [sys.executable, '-m', module]
     elif variant == 'elsewhere':
         cwd = '/'
     elif variant == 'relative':
